@@ -553,6 +553,27 @@ func (c *Ctx) wholeFileWrites(rule string, roots []*ssa.Function) int {
 						writes := fl&(oWronly|oRdwr) != 0
 						okFlags = !writes || (fl&oTrunc != 0 && fl&oAppend == 0)
 						detail = fmt.Sprintf("opened for writing with flags %#x: no O_TRUNC (or O_APPEND): bytes of a longer previous version survive behind the new contents", fl)
+						// create-or-fail (O_EXCL) writes a new file wholly too — unless "already exists" is then taken for
+						// success, which keeps the old contents while the caller believes the new ones are stored
+						if oExcl, okx := c.extConstInt("os", "O_EXCL"); okx && writes && fl&oExcl != 0 && fl&oAppend == 0 {
+							okFlags = true
+							if cv := call.Value(); cv != nil {
+								for _, r := range nonDebugRefs(cv) {
+									ex, isEx := r.(*ssa.Extract)
+									if !isEx || ex.Index != 1 {
+										continue
+									}
+									for _, u := range nonDebugRefs(ex) {
+										if uc, isCall := u.(*ssa.Call); isCall {
+											if g := uc.Call.StaticCallee(); g != nil && (g.String() == "errors.Is" || g.String() == "os.IsExist") {
+												okFlags = false
+												detail = "opened with O_EXCL and the 'already exists' error is tested and turned into success: the file keeps its old contents while the caller is told the new ones were stored"
+											}
+										}
+									}
+								}
+							}
+						}
 					} else {
 						detail = "os.O_* constants not found"
 					}
